@@ -237,6 +237,33 @@ CHECKS["C16"] = dict(level=TV, design="DESIGN.md section 6, C16",
          "align_stack, that a reported stack_adjustment equals the real displacement, and that scratch registers are distinct, "
          "as many as requested, not read, not reserved and saved.")
 
+_ASM_NOTE = ("PARTIAL CLAIM: only the Python half of the assembler (_SymbolCreator, _Streamer callbacks, Assembler.finalize and its "
+             "clean-up passes) is decided. LLVM MC (mcasm) is FFI: it parses the concrete text and produces the event stream; "
+             "'the bytes disassemble to the instructions written' is checked with capstone on the concrete replays only "
+             "(witness-level). Symbolic: the length of every chunk the streamer appends (>= its real length), via a wrapper of "
+             "_Streamer._append_data, so block offsets/sizes and label/expression positions are z3 terms. Programs: 18 token "
+             "programs x x86-64 Intel/AT&T, ARM64 (thorough: IA32) x ELF PIE/non-PIE x trivially_unreachable. Not covered: "
+             "section switches, .align, .string, CFI inside assembled text, MIPS32, PE. Trusted: symx, the model in harness/asm.py.")
+CHECKS["C12"] = dict(level=MC, design="DESIGN.md section 6, C12 (claimed in part)", note=_ASM_NOTE,
+    technique="symbolic execution of the real streamer/finalize code (symx) with symbolic chunk lengths injected at "
+              "_Streamer._append_data, events from the real LLVM MC parser; capstone on concrete witnesses",
+    text="For every program and for all instruction sizes z3 decides that the blocks tile the section data contiguously with at "
+         "most one empty block at the end, that block boundaries are exactly at labels and after control transfers, that every "
+         "transfer ends its block with the edges its kind demands (fresh proxy per return/indirect transfer), that labels refer "
+         "to the block starting at their position (or at_end of the last block when trailing and unreachable), that .byte-only "
+         "blocks nothing reaches become data (first block of an executable section only under trivially_unreachable), and that "
+         "each symbolic operand yields one expression inside its instruction with the right symbol object, addend, PLT attribute "
+         "and a plausible size.")
+CHECKS["C13"] = dict(level=MC, design="DESIGN.md section 6, C13 (claimed in part)", note=_ASM_NOTE + " Not decided: which names LLVM "
+    "treats as temporary (FFI); more than two chunks.",
+    technique="as C12; chunked assembly compared against the same model at every legal cut",
+    text="Names that exist in the module bind to the module's symbol objects (identity); an unknown name raises "
+         "UndefSymbolError or, when allowed, yields exactly one proxy-backed symbol per name; defining an existing name "
+         "(global, temporary-looking, own label, via .set) raises MultipleDefinitionsError; temporary labels and temporary "
+         "assigned symbols receive the suffix and two copies never share a name or capture each other's label; assembling a "
+         "program in two chunks at any cut that does not refer forward gives the same blocks, edges, labels and expressions "
+         "as the model of the whole program, for all instruction sizes.")
+
 NOT_YET = "check not built yet in this round (planned, see DESIGN.md section 6)"
 
 manifest = {
